@@ -7,6 +7,18 @@ TB = ('Coq 8.16.1 kernel (coqc, full .vo builds, vm_compute; no native_compute);
       'the correspondence harness (g++ 12 -O1, ASan+UBSan+float-cast-overflow, exact-size heap buffers) and its generators; the hand-written model is tied to /repo/src by that correspondence, '
       'which is differential testing. ')
 CLAIMED = {
+ 'C01': dict(text='Theorems about the model of the send path: the 29-bit identifier carries priority, PGN, source and (PDU1) destination for all 2^17 PGNs x priorities x addresses (algebraic, no enumeration) and is refused '
+                  'exactly for addressable PGNs with a low byte; the fast-packet frames of every payload up to 223 bytes decode to the payload under a reference decoder with correct counters, length byte and 0xFF padding; '
+                  'sequence ids of declared PGNs are consecutive for every send history; classification agrees with an independent reference table; refusals are silent; an accepted message reaches the driver as exactly '
+                  'those frames.  The PGN tables and constants are regenerated from the C++ on every run; model and C++ are compared on every driver frame, result and internal state in both scheduler builds.',
+             note=TB + 'Known finding (machine-checked refutation C01_seq_unrestricted_refuted + replayed on the C++): sequence ids break once undeclared fast-packet PGNs are sent.  ISO-TP carriage is C10; queueing is C11.  '
+                  'The translator tools/gen_tables.py (C preprocessor + pattern parser) is trusted for the tables; the reference classification Spec/PgnClassRef.v is my transcription.',
+             design='6 C01', technique='Coq proof over executable model (tables regenerated from source) + extracted-model/implementation correspondence'),
+ 'C11': dict(text='Refinement theorems: one SendFrames/SendFrame of the ring model is one step of a FIFO list machine of capacity max-1 for every driver answer stream and every ring size >= 2; lifted to all operation '
+                  'sequences (run_refines) with the corollary that accepted frames followed by the pending frames are exactly the frames whose send returned true, in order (no loss, duplicate or overtaking).  '
+                  'Model and C++ compared on every CANSendFrame call under exhaustive accept/refuse patterns and random long histories.',
+             note=TB + 'Modelled: CANSendFrameBuf ring of NMEA2000.cpp; the driver is an answer stream.  Driver-side buffering of concrete CAN drivers is out of scope.',
+             design='6 C11', technique='Coq refinement proof (ring -> FIFO list machine) + extracted-model/implementation correspondence'),
  'C20': dict(text='Refinement theorems, for every operation sequence, every size up to 65535 and every priority count: the model of tRingBuffer answers exactly like a FIFO of capacity size-1 and the model of '
                   'tPriorityRingBuffer exactly like the span list machine (per-priority order, lowest priority first, refusal at span = size-1, holes not compacted); the span machine is shown to keep a live head and '
                   'per-priority FIFO order.  Model, extracted specification and C++ are compared per operation on exhaustive small scopes and long random sequences every run.',
